@@ -31,6 +31,32 @@ impl Service {
         }
     }
 
+    #[cfg(feature = "verif-hooks")]
+    pub(crate) fn verif_dump(
+        &self,
+        object_uuid: aldrin_core::ObjectUuid,
+        uuid: aldrin_core::ServiceUuid,
+    ) -> crate::verif::DumpService {
+        crate::verif::DumpService {
+            object_uuid,
+            uuid,
+            cookie: self.cookie,
+            object_cookie: self.object_cookie,
+            function_calls: self.function_calls.iter().copied().collect(),
+            events: self
+                .events
+                .iter()
+                .map(|(&ev, conns)| (ev, conns.iter().map(ConnectionId::verif_id).collect()))
+                .collect(),
+            all_events: self.all_events.iter().map(ConnectionId::verif_id).collect(),
+            subscriptions: self
+                .subscriptions
+                .iter()
+                .map(ConnectionId::verif_id)
+                .collect(),
+        }
+    }
+
     pub(crate) fn cookie(&self) -> ServiceCookie {
         self.cookie
     }
